@@ -46,14 +46,30 @@ def expand_spans(text, repo, spans_log):
     def define(m):
         rel, name, a, b = m.group(1), m.group(2), m.group(3).strip(), m.group(4).strip()
         src = open(os.path.join(repo, rel), encoding="utf-8").read()
-        ra, rb = rs.anchor_regex(a), rs.anchor_regex(b)
+        ra = rs.anchor_regex(a)
+        rb = rs.anchor_regex(b) if b != "@block_end" else None
         ha = list(ra.finditer(src))
         if len(ha) != 1:
             raise KaniSetupError("span %s: begin anchor `%s` matches %d times in %s" % (name, a, len(ha), rel))
-        hb = [h for h in rb.finditer(src) if h.start() >= ha[0].start()]
-        if not hb:
-            raise KaniSetupError("span %s: end anchor `%s` not found after begin in %s" % (name, b, rel))
-        s, e = ha[0].start(), hb[0].end()
+        s = ha[0].start()
+        if b == "@block_end":
+            # up to (not including) the `}` that closes the block containing the begin anchor
+            depth, e = 0, None
+            for t in rs.lex(src[s:]):
+                if t.kind == "punct" and t.text in rs.OPEN:
+                    depth += 1
+                elif t.kind == "punct" and t.text in rs.CLOSE:
+                    depth -= 1
+                    if depth < 0:
+                        e = s + t.s
+                        break
+            if e is None:
+                raise KaniSetupError("span %s: enclosing block end not found" % name)
+        else:
+            hb = [h for h in rb.finditer(src) if h.start() >= ha[0].start()]
+            if not hb:
+                raise KaniSetupError("span %s: end anchor `%s` not found after begin in %s" % (name, b, rel))
+            e = hb[0].end()
         body = src[s:e]
         depth = 0
         for t in rs.lex(body):
